@@ -1,11 +1,11 @@
-import Uhppote.Driver.Common
+import Uhppote.Driver.SpecCommon
 import Uhppote.Spec.BCD
 namespace Uhppote.Driver.SpecBCD
 open Uhppote
 
-def handle : List String → Option String
-  | ["bcd-enc", h] => (fromHex h).map fun s => Driver.fmtOptBytes (Spec.BCD.encode s)
-  | ["bcd-dec", h] => (fromHex h).map fun s => Driver.fmtOptBytes (Spec.BCD.decode s)
-  | _ => none
+def handle : List String → List String → Option String
+  | ["bcd-enc", h], impl => (fromHex h).map fun s => Driver.expect (Driver.fmtOptBytes (Spec.BCD.encode s)) impl
+  | ["bcd-dec", h], impl => (fromHex h).map fun s => Driver.expect (Driver.fmtOptBytes (Spec.BCD.decode s)) impl
+  | _, _ => none
 
 end Uhppote.Driver.SpecBCD
